@@ -29,8 +29,6 @@ struct Tolerances
    R epsilon() const { return s_epsilon; }
 };
 
-extern "C" { extern int* gp_val; extern int* gp_idx; extern int* gp_num; }
-
 /* goto-cc synthesises the default constructors of a template chain only if each class is used once, base first (README 17) */
 static inline void verif_force_ctors() { IdxSet a; VectorBase<R> b; SVectorBase<R> c; }
 
@@ -143,7 +141,6 @@ extern "C" void w_ss(int* val, int dim, int* idx, int len, int* num, int* setup,
    SSVec s; s.val.p = (R*)val; s.val.n = dim; s.idx = idx; s.len = len; s.num = *num; s.freeArray = false;
    s.setupStatus = (*setup != 0); s._tolerances = &tol;
    R xr; xr.v = xv;
-   gp_val = val; gp_idx = idx; gp_num = &s.num;
 #ifdef INST_SV_FROM_SS
    SVFromSS sb;
 #else
